@@ -47,3 +47,20 @@ package api
 //@   vars a string, b string
 //@   hyp  twoDigits(a) && twoDigits(b)
 //@   goal (a < b) <==> (num2(a) < num2(b))
+
+// ---------------------------------------------------------------------------
+// Event masks (event.go).  In integer-mode functions the bit operations are uninterpreted
+// symbols (the same on the code and the specification side); their algebra is proved in
+// bit-vector mode below.
+// ---------------------------------------------------------------------------
+//@ func EventMask.Set
+//@   props C14 C15
+//@   requires m != nil && len(events) == 1
+//@   modifies m
+//@   ensures [set] deref(m) == (old(deref(m)) | (1 << (events[0] - 1))) && result == m
+//@   loop 1 invariant 0 <= idx + 1 && idx + 1 <= 1 && (idx == 0 - 1 ==> deref(m) == old(deref(m))) && (idx == 0 ==> deref(m) == (old(deref(m)) | (1 << (events[0] - 1))))
+
+//@ func EventMask.PrettyString
+//@   props C14
+//@   trusted
+//@   requires m != nil
